@@ -65,7 +65,8 @@ type VerifC38Env struct {
 	temps int
 	smap  []verifC38MapEntry
 
-	Events []VerifC38Event
+	Events       []VerifC38Event
+	SlotRemovals int // how often the cache entry was really deleted
 
 	BackendFaults bool // inner backend operations may fail
 	CacheFaults   bool // creating/writing/renaming/removing cache files may fail
@@ -203,6 +204,9 @@ func (e *VerifC38Env) osRemove(name string) error {
 		return &fs.PathError{Op: "remove", Path: name, Err: fs.ErrPermission}
 	}
 	e.files[i].exists = false
+	if name == e.SlotPath() {
+		e.SlotRemovals++
+	}
 	return nil
 }
 
@@ -420,8 +424,6 @@ func VerifC38NewEnvData(h backend.Handle, data []byte) *VerifC38Env {
 	verifrt.Stub("(*os.File).Write", e.fileWrite)
 	verifrt.Stub("(*os.File).Close", e.fileClose)
 	verifrt.Stub("(*os.File).Name", e.fileName)
-	verifrt.Stub("(*sync.Map).Load", e.mapLoad)
-	verifrt.Stub("(*sync.Map).Store", e.mapStore)
 	return e
 }
 
